@@ -14,6 +14,8 @@
      d_reserved_raw      reserved words are not quoted (pinned; repaired a1f7894)
      d_dot_safe          '.' counts as a safe identifier character, so the quoted identifier a.b is printed raw
                          (UNREPAIRED: pinned tests build an Identifier named u.name and expect u.name)
+     d_digit_safe        a name that begins with a digit is written raw and read as a number
+                         (UNREPAIRED: pinned tests build an Identifier named 1 and expect SELECT 1)
      codec: d_ctrlz_escape  Ctrl-Z escaped as \Z (pinned; repaired 8c4ab20);  d_drop_nul  NUL dropped (UNREPAIRED, deliberate);
             d_triple_quote  a leading quote written as two quotes, so the text opens a triple-quoted string (pinned; repaired)
    Nodes / shapes that are not modelled give [None] (sub-queries, EXISTS, ANY/ALL, aliases, window calls, ...).
@@ -25,10 +27,10 @@ Local Open Scope string_scope.
 Local Open Scope list_scope.
 Local Open Scope nat_scope.
 
-Record pflags := PFlags { d_no_parens : bool; d_is_not_null_lost : bool; d_reserved_raw : bool; d_dot_safe : bool }.
-Definition print_ok : pflags := PFlags false false false false.          (* every defect repaired *)
-Definition print_tree : pflags := PFlags false false false true.         (* the tree as it is now *)
-Definition print_pinned : pflags := PFlags true true true true.          (* the pinned tree *)
+Record pflags := PFlags { d_no_parens : bool; d_is_not_null_lost : bool; d_reserved_raw : bool; d_dot_safe : bool; d_digit_safe : bool }.
+Definition print_ok : pflags := PFlags false false false false false.          (* every defect repaired *)
+Definition print_tree : pflags := PFlags false false false true true.         (* the tree as it is now *)
+Definition print_pinned : pflags := PFlags true true true true true.          (* the pinned tree *)
 
 (* ------------------------------------------------------------------------------------------------ *)
 (* precedence levels of sql.go: precOr ... precPrimary *)
@@ -108,8 +110,10 @@ Fixpoint all_chars (f : ascii -> bool) (s : string) : bool :=
 Definition is_reserved (n : string) : bool := in_strs (upper n) reserved_words.
 
 (* safeIdentifier(name) writes the name in double quotes *)
+Definition starts_with_digit (n : string) : bool := match n with String c _ => is_digit_c c | EmptyString => false end.
 Definition needs_quote (pf : pflags) (n : string) : bool :=
-  String.eqb n "" || negb (all_chars (safe_char pf) n) || (negb (d_reserved_raw pf) && is_reserved n).
+  String.eqb n "" || negb (all_chars (safe_char pf) n) || (negb (d_reserved_raw pf) && is_reserved n)
+  || (negb (d_digit_safe pf) && starts_with_digit n).
 
 (* the tokens of a name written raw: the tokenizer splits it at '.', a part "*" is the asterisk *)
 Fixpoint split_dots (s : string) (cur : string) : list string :=
@@ -119,7 +123,9 @@ Fixpoint split_dots (s : string) (cur : string) : list string :=
   end.
 (* a reserved word written raw is read as a keyword token, not as an identifier ([TyKeyword] stands for its kind) *)
 Definition raw_part (p : string) : token :=
-  if String.eqb p "*" then Tk TyAsterisk "*" else if is_reserved p then Tk TyKeyword p else Tk TyIdent p.
+  if String.eqb p "*" then Tk TyAsterisk "*" else if is_reserved p then Tk TyKeyword p
+  else if starts_with_digit p then Tk TyNumber p   (* read as a number (followed by a word, if any) *)
+  else Tk TyIdent p.
 Definition raw_tokens (n : string) : list token :=
   sep_by [Tk TyPeriod "."] (map (fun p => [raw_part p]) (split_dots n "")).
 
